@@ -85,6 +85,13 @@ def check_numbering(coarse, fine, all_atom, shared=None):
                 if not isinstance(nm, str) or not nm.startswith(el) or not nm[len(el):].isdigit():
                     return 'numbering:atomname-format', {'node': i, 'atomname': nm, 'element': el}
                 names.append(nm)
+            ordered = sorted(g.nodes)
+            if all(len(fine.nodes[i].get('fragid', [])) == 1 for i in ordered):
+                # running index: the i-th atom of the coarse node (in key order) is named element + i
+                for pos, i in enumerate(ordered):
+                    if fine.nodes[i].get('atomname') != fine.nodes[i].get('element') + str(pos):
+                        return 'numbering:atomname-index-does-not-follow-atom-order', {
+                            'coarse': k, 'names': [fine.nodes[j].get('atomname') for j in ordered]}
             if len(set(names)) != len(names):
                 dup = {nm for nm in names if names.count(nm) > 1}
                 via_shared = all(any(len(fine.nodes[i].get('fragid', [])) > 1 for i in g.nodes if fine.nodes[i].get('atomname') == nm)
